@@ -131,11 +131,68 @@ const FINE_POINTS: [&str; 2] = ["run:scan_poll", "run:rescore_item"];
 /// Points that only matter for the ordering of the notification flag against the worker's read.
 const FLAG_POINTS: [&str; 5] = ["tick:enter", "tick:flag_cleared", "tick:try_lock_failed", "tick:rearmed", "tick:retry_lock"];
 
+/// The source the scheduler's model of the lock operations is bound to (compiled in, so the
+/// harness is rebuilt whenever it changes).
+const LIB_RS: &str = include_str!("/repo/src/lib.rs");
+
+/// Kind of lock operation that follows a hook point in the library source: the scheduler treats
+/// a blocking acquisition as a blocking point (enabled only while the lock is free), a timed
+/// try-lock as a yield (the thread may also go on while the lock is held: the attempt then fails)
+/// and a plain try-lock as an ordinary step. Derived from the code rather than assumed, so a
+/// change of the primitive behind a point changes the explored behaviours with it.
+#[derive(Clone, Copy, PartialEq, Debug)]
+pub enum LockKind {
+    Blocking,
+    TimedTry,
+    Try,
+}
+
+pub fn lock_kind_after(src: &str, id: &str) -> Option<LockKind> {
+    let needle = format!("verif::point(\"{id}\"");
+    let at = src.find(&needle)?;
+    for line in src[at..].lines().skip(1).take(8) {
+        let l = line.trim();
+        if l.starts_with("//") || l.starts_with("#[") {
+            continue;
+        }
+        if l.contains("try_lock_arc_for(") || l.contains("try_lock_for(") {
+            return Some(LockKind::TimedTry);
+        }
+        if l.contains("try_lock_arc()") || l.contains("try_lock()") {
+            return Some(LockKind::Try);
+        }
+        if l.contains(".lock_arc()") || l.contains(".lock()") {
+            return Some(LockKind::Blocking);
+        }
+    }
+    None
+}
+
+pub fn lock_binding() -> &'static [(&'static str, LockKind); 4] {
+    static B: std::sync::OnceLock<[(&'static str, LockKind); 4]> = std::sync::OnceLock::new();
+    B.get_or_init(|| {
+        let get = |id: &'static str| -> (&'static str, LockKind) {
+            match lock_kind_after(LIB_RS, id) {
+                Some(k) => (id, k),
+                None => common::machinery_failure(&format!("cannot find the lock operation after hook point {id} in /repo/src/lib.rs")),
+            }
+        };
+        [get("tick:lock"), get("tick:try_lock"), get("tick:retry_lock"), get("drop:lock")]
+    })
+}
+
 fn wait_of(id: &'static str) -> Wait {
     match id {
-        "tick:lock" | "drop:lock" => Wait::WorkerLock,
-        "tick:try_lock" => Wait::Yield,
-        "tick:retry_lock" => Wait::None,
+        // Drop waits a full second for the lock: blocking for every purpose of the model
+        "drop:lock" => Wait::WorkerLock,
+        "tick:lock" | "tick:try_lock" | "tick:retry_lock" => {
+            let kind = lock_binding().iter().find(|(n, _)| *n == id).map(|x| x.1).unwrap_or(LockKind::Try);
+            match kind {
+                LockKind::Blocking => Wait::WorkerLock,
+                LockKind::TimedTry => Wait::Yield,
+                LockKind::Try => Wait::None,
+            }
+        }
         _ => Wait::None,
     }
 }
